@@ -120,3 +120,9 @@ if __name__ == "__main__":
     elif c == "detect":
         for s in sys.argv[2:]:
             cmd_detect(s)
+    elif c == "detect-all":
+        # every seeded change, N at a time (each in its own scratch worktree)
+        from concurrent.futures import ThreadPoolExecutor
+        ids = sorted(os.path.basename(os.path.dirname(p)) for p in glob.glob(os.path.join(SEEDED, "*", "patch.diff")))
+        with ThreadPoolExecutor(max_workers=int(sys.argv[2]) if len(sys.argv) > 2 else 4) as ex:
+            list(ex.map(cmd_detect, ids))
